@@ -18,7 +18,7 @@ MANIFEST = {
     "engine": "gridx",
     "technique": "complete enumeration of a designed finite grid of cells x cutoffs x atom counts x position designs "
                  "x query/haystack subsets, every result compared with a float64 brute-force minimum-image oracle",
-    "text": "Every member of: cell menu (quick 6 cells + 4 unreduced forms, thorough 14 + 10) and no cell x cutoff in "
+    "text": "Every member of: cell menu (quick 7 cells + 5 unreduced forms, thorough 14 + 10) and no cell x cutoff in "
             "{0.05, 0.25, 0.5} x smallest cell width x n in {1,2,3,8,64} x position designs {4x4x4 fractional lattice + "
             "low-discrepancy jitter as generated / wrapped into the brick cell / every atom in a different image of "
             "{-2..2}^3; points exactly on and +-1e-4 around multiples of the voxel edge neighborlist.cpp derives for "
@@ -96,9 +96,15 @@ def _bases(level, ny, nz, vsy, vsz, ax, cutoff, by=None, cz=None):
 _MENU = {}
 
 
+QUICK_EXTRA = "tric_45_60_75"      # most skewed menu cell; its unreduced form shows the upper-face rounding defect
+
+
 def _menu(quick):
     if quick not in _MENU:
-        _MENU[quick] = grids.cell_menu(quick=quick, unreduced=True)
+        m = grids.cell_menu(quick=quick, unreduced=True)
+        if quick:
+            m = m + [c for c in grids.cell_menu(quick=False, unreduced=True) if c["name"].startswith(QUICK_EXTRA)]
+        _MENU[quick] = m
     return _MENU[quick]
 
 
